@@ -333,6 +333,24 @@ func (e *Engine) bytesModel(st *State, f *ssa.Function, full string, args []Valu
 		}
 		bufSet(st, p, sl, off+n)
 		return TupleV{C(uint64(n), 64), nilErr()}, true, ""
+	case "(*bytes.Buffer).Next":
+		nT, ok := args[1].(*Term)
+		if !ok || !nT.IsConst() {
+			return nil, true, "bytes.Buffer.Next with symbolic count"
+		}
+		n := int(int64(nT.Val))
+		if n > avail {
+			n = avail
+		}
+		if n < 0 {
+			e.panicVC(st, "slice bounds out of range in bytes.Buffer.Next", B(true))
+			return nil, true, "VC:"
+		}
+		if n == 0 {
+			return SliceV{arr: sl.arr, off: sl.off + off, n: 0, cap: avail, apath: sl.apath}, true, ""
+		}
+		bufSet(st, p, sl, off+n)
+		return SliceV{arr: sl.arr, off: sl.off + off, n: n, cap: avail, apath: sl.apath}, true, ""
 	case "(*bytes.Buffer).WriteByte":
 		e.bufAppend(st, p, StructV{args[1]})
 		return nilErr(), true, ""
